@@ -533,8 +533,13 @@ pub fn run_batch<C: Check>(c: Arc<C>, cfg: BatchCfg) -> i32 {
             *policies.entry(k).or_insert(0) += v;
         }
         for f in o.found {
-            if !found.iter().any(|g| g.v.signature == f.v.signature) {
-                found.push(f);
+            match found.iter_mut().find(|g| g.v.signature == f.v.signature) {
+                Some(g) => {
+                    if f.idx < g.idx {
+                        *g = f;
+                    }
+                }
+                None => found.push(f),
             }
         }
         for (k, v) in o.known_hits {
